@@ -371,6 +371,7 @@ func checkC19(r *core.Run) {
 	}
 	// codec
 	c19Codec(r, p)
+	c19CleanupSpares(r, p)
 	// locks
 	la := an.NewLockAnalysis(p)
 	exported := []string{"Count", "Browse", "BrowseAll", "Get", "Put", "PutExt", "Del", "ApplyFlags", "Defrag", "NoSync", "Sync", "Close"}
@@ -865,4 +866,49 @@ func c19NewerWins(r *core.Run, p *core.Program, ln *ssa.Function) {
 	}
 	sort.Strings(bad)
 	r.Check(len(bad) == 0, rule, "newer-snapshot-wins", p.Pos(ln.Pos()), fmt.Sprintf("%d combinations of validity and sequence order: a single valid file is used, of two the one with the higher sequence (wrap-around compare)", cases), strings.Join(bad, "; "))
+}
+
+// c19CleanupSpares: removing stale data files never touches a file that is still needed: every removal in
+// the clean-up walk is conditional on the file's sequence being different from the one the store currently
+// appends to (which may hold no indexed record yet - right after a defragmentation of an empty store) and on
+// the sequence not being referenced by any index entry.
+func c19CleanupSpares(r *core.Run, p *core.Program) {
+	const rule = "R-C19-order"
+	const key = "cleanup/keeps-current-and-referenced-files"
+	var fn *ssa.Function
+	if cu := p.Func("lib/others/qdb.(*DB).cleanupold"); cu != nil {
+		fn = cu
+	}
+	if fn == nil {
+		r.Fail(rule, key, "-", "cleanupold not found")
+		return
+	}
+	n := 0
+	var bad []string
+	for _, f := range append([]*ssa.Function{fn}, fn.AnonFuncs...) {
+		for _, c := range an.CallsTo(f, false, "os.Remove") {
+			n++
+			cs := an.DomConds(c.(ssa.Instruction).Block())
+			cur, used := false, false
+			for _, dc := range cs {
+				if strings.Contains(dc.Cond, ".DataSeq)") || strings.Contains(dc.Cond, ".DataSeq ") {
+					if (strings.Contains(dc.Cond, " != ") && dc.True) || (strings.Contains(dc.Cond, " == ") && !dc.True) {
+						cur = true
+					}
+				}
+				if strings.Contains(dc.Cond, "used[") && strings.HasSuffix(dc.Cond, "#1") && !dc.True {
+					used = true
+				}
+			}
+			pos := p.Pos(an.InstrPos(c.(ssa.Instruction)))
+			if !cur {
+				bad = append(bad, "the removal at "+pos+" is not conditional on the file not being the current data file")
+			}
+			if !used {
+				bad = append(bad, "the removal at "+pos+" is not conditional on the file's sequence being unreferenced")
+			}
+		}
+	}
+	sort.Strings(bad)
+	r.Check(len(bad) == 0 && n >= 1, rule, key, p.Pos(fn.Pos()), fmt.Sprintf("%d removal(s), each for a sequence that is neither current nor referenced", n), strings.Join(bad, "; "))
 }
